@@ -60,7 +60,7 @@ def check_definition(key, tmp: Path, run_python: bool):
             desc.setdefault("cmdlines", []).append(c1)
             if c1 != c2:
                 probs.append(f"behaviour: cmdline differs for {kw}: {c1!r} -> {c2!r}")
-        elif run_python or i == 0:
+        elif run_python or i <= 1:
             o1 = t1(cache_root=tmp / f"c1_{i}")
             o2 = t2(cache_root=tmp / f"c2_{i}")
             v1 = {n: getattr(o1, n) for n in desc["outputs"]}
@@ -110,8 +110,8 @@ def _run(ctx):
     n_sh = sum(1 for k in keys if k[0] == "shell")
     dom = ctx.domain(
         "generated-definitions",
-        bound=f"shell: mandatory int arg at position None/1/-1 + every subset of <= {k_sh} of 14 further input templates x 5 output sets x xor variants x executable str/list ({n_sh} definitions" + ("" if ctx.thorough else "; quick: position/output-set variation only for subsets of <= 1 template") + "); "
-        f"python: mandatory int + every subset of <= {k_py} of 12 input templates x 3 output sets x xor variants ({len(keys) - n_sh} definitions); two input value sets each (python definitions are really run: on both sets in thorough, on the first set in quick)",
+        bound=f"shell: mandatory int arg at position None/1/-1 + every subset of <= {k_sh} of 16 further input templates x 5 output sets x xor variants x executable str/list ({n_sh} definitions" + ("" if ctx.thorough else "; quick: position/output-set variation only for subsets of <= 1 template") + "); "
+        f"python: mandatory int + every subset of <= {k_py} of 13 input templates x 3 output sets x xor variants ({len(keys) - n_sh} definitions); three input value sets each, one of them leaving every field with a default unset (python definitions are really run: on all sets in thorough, on the first two in quick)",
         rule="one unstructure+structure per definition, compared attribute by attribute, then cmdline / real run on equal inputs; non-trivial = at least one optional template or output beyond the mandatory field",
         exhaustive=True,
     )
